@@ -152,6 +152,27 @@ def run(rng, tier, model_ok):
                     x = Fraction(rng.randint(1, 99), rng.choice([1, 10]))
                     add("%s %s to %s" % (gens_dec(x), a, b), si_oracle(x, na, nb))
                     stats["same_names_other_powers"] = stats.get("same_names_other_powers", 0) + 1
+    # a cast never changes what is measured: towards a unit of the reciprocal dimension (a period to a frequency, a pace to a
+    # speed, a consumption to a range) there is nothing to preserve, so it is refused; if it is accepted it is held to the same
+    # laws as every conversion (the SI value is kept, scaling the input scales the output, a prefix is its power of ten)
+    recip = [("s", "Bq"), ("s", "Hz"), ("min", "Hz"), ("m", "1/m"), ("min/km", "km/hr"), ("s/m", "m/s"), ("mi/gal", "l/km"), ("hr", "1/s"),
+             ("ms", "kHz"), ("kg/m^3", "m^3/kg"), ("N/m", "m/N"), ("Bq", "s"), ("km/hr", "min/km"), ("1/m", "km")]
+    for a, b in recip:
+        rr = read_units(V, [a, b])
+        na, nb = rr.get(a), rr.get(b)
+        if not na or not nb or V.dims(na) == V.dims(nb):
+            continue
+        for x in (Fraction(1), Fraction(2), Fraction(4), Fraction(5), Fraction(10), Fraction(1, 2)):
+            def o(reply, x=x, na=na, nb=nb, a=a, b=b):
+                if pipeline.is_error(reply):
+                    return None
+                v = pipeline.single_value(reply)
+                if v is None or not same_unit(v[2], nb) or V.dims(na) != V.dims(nb) or V.si(v[0], v[1], v[2]) != x * V.scale(na):
+                    return {"why": "%s and %s measure different things (reciprocal dimensions): the cast must be refused; it answered %s" % (a, b, v)}
+                return None
+            add("%s %s to %s" % (gens_dec(x), a, b), o)
+            add("(%s %s to %s) to %s" % (gens_dec(x), a, b, a), o if False else (lambda reply: None if pipeline.is_error(reply) else {"why": "a cast between reciprocal dimensions was accepted"}))
+            stats["reciprocal_casts"] = stats.get("reciprocal_casts", 0) + 2
     # prefixes: exactly the power of ten
     for e, word, name in prefix_words:
         na, nb = parsed.get(word), parsed.get(name)
